@@ -662,6 +662,82 @@ def ck9(p, res):
     return n
 
 
+def _atoms_of(pl, out):
+    for a in pl.atoms():
+        out.add(repr(a))
+        if a[0] == "f":
+            for k in a[2]:
+                _atoms_of(Poly(dict(k)), out)
+
+
+def ck9_pt(p, res):
+    """exponent balance of ct x plaintext multiplication.  The ciphertext holds m_a * 2^-budget_a, the plaintext m_b * 2^(delta_b - position_b) with position_b a property of the
+    plaintext alone; the product scaled by 2^cnv_offset is claimed to be m_a m_b * 2^-res_log_budget.  Hence  cnv_offset + res_log_budget - budget_a + delta_b  is the plaintext's
+    position: it must not change when only the ciphertext's metadata or the destination's capacity change."""
+    from . import pwl
+    import random
+    n = 0
+    for f in sorted(p.lib_fns(), key=lambda x: x.uid):
+        if not f.uid.startswith("poulpy_ckks::leveled") or f.kind == "Closure":
+            continue
+        mc = [(bi, t) for bi, t in f.calls() if (f.callee_def(t) or {}).get("n") == "checked_mul_pt_log_budget" and len(t["a"]) == 5]
+        if len(mc) != 1:
+            continue
+        g = CFG(f)
+        sym = Sym(f, Flow(f))
+        ba, bb_, da, db = (sym.operand(a) for a in mc[0][1]["a"][1:5])
+        off = bud = None
+        for bi in sorted(g.reach):
+            for st in f.blocks[bi]["s"]:
+                if st[0] == "A" and st[1] == [0] and st[2]["k"] == "Agg" and st[2].get("variant") == "Ok" and st[2]["o"]:
+                    o = st[2]["o"][0]
+                    if o[0] in ("c", "m") and len(o[1]) == 1:
+                        for d in sym.flow.defs.get(o[1][0], []):
+                            if d[0] != "call" and d[4]["k"] == "Agg" and d[4].get("ak") == "Tuple" and len(d[4]["o"]) == 3:
+                                bud, off = sym.operand(d[4]["o"][0]), sym.operand(d[4]["o"][2])
+        if off is None:
+            continue
+        n += 1
+        vary = set()
+        _atoms_of(ba, vary)
+        _atoms_of(da, vary)
+        fixed = set()
+        _atoms_of(db, fixed)
+        vary -= fixed
+        good = 0
+        bad = None
+        for val in pwl.valuations(count=3000):
+            ev = pwl.Eval(p, val)
+            ev.syms[f.uid] = sym
+            try:
+                d1 = ev.poly(off) + ev.poly(bud) - ev.poly(ba) + ev.poly(db)
+                s1 = {"budget_a": ev.poly(ba), "delta_a": ev.poly(da), "delta_b": ev.poly(db), "cnv_offset": ev.poly(off), "res_log_budget": ev.poly(bud)}
+            except pwl.ErrPath:
+                continue
+            v2 = {k: v for k, v in ev.val.items() if k not in vary and not (k.startswith("('f', 'max_k'") and "('p', 1, ())" in k)}
+            r = random.Random(repr(sorted((k, v) for k, v in v2.items() if k != "__fresh__")))
+            v2["__fresh__"] = lambda k, r=r: r.randint(0, 24)
+            ev2 = pwl.Eval(p, v2)
+            ev2.syms[f.uid] = sym
+            try:
+                d2 = ev2.poly(off) + ev2.poly(bud) - ev2.poly(ba) + ev2.poly(db)
+                s2 = {"budget_a": ev2.poly(ba), "delta_a": ev2.poly(da), "delta_b": ev2.poly(db), "cnv_offset": ev2.poly(off), "res_log_budget": ev2.poly(bud)}
+            except pwl.ErrPath:
+                continue
+            good += 1
+            if d1 != d2 and bad is None:
+                bad = (s1, s2)
+        if good < 300:
+            res.undec("CK-9", "%s: only %d admissible valuation pairs" % (f.pretty, good))
+        elif bad:
+            res.bad("CK-9", f.pretty, "exponent-balance:plaintext-position",
+                    "%s: cnv_offset + res_log_budget - log_budget(a) + log_delta(b) (the bit position of the plaintext) changes with the ciphertext's metadata alone: %s vs %s. The product "
+                    "is returned with metadata that does not describe its scale" % (f.pretty, bad[0], bad[1]), site=f.where(mc[0][1]["l"]), detail={"first": bad[0], "second": bad[1]})
+        else:
+            res.ok("CK-9", {"fn": f.pretty, "shape": "ct x pt", "valuation_pairs": good})
+    return n
+
+
 def run(res, tier):
     res.level = "other"
     res.explanation = ("Metadata-write and error-path discipline of the CKKS layer decided on MIR: who may write CKKSMeta, budget/precision subtractions guarded by a dominating comparison of the "
@@ -698,6 +774,8 @@ def run(res, tier):
         res.floor("CK-8", "out-of-place operations with a source ciphertext", n8, 20)
         n9 = ck9(p, res)
         res.floor("CK-9", "ct x ct offset derivations", n9, 2)
+        n9p = ck9_pt(p, res)
+        res.floor("CK-9", "ct x pt offset derivations", n9p, 2)
         n6 = ck6(p, res)
         res.floor("CK-6", "ct x ct parameter derivations", n6, 1)
         res.fn_count += n4
